@@ -646,6 +646,16 @@ class Machine:
                     raise MirError('symbolic float->int cast')
                 return [wrap_int(int(x), to)]
             raise MirError('cast ' + kind)
+        if k == 'closure':
+            parts = [s.operand(p, o) for o in rv[2]]
+            sizes = [len(x) for x in parts]
+            if mir.CLOSURES.get(rv[1]) != sizes:
+                mir.CLOSURES[rv[1]] = sizes
+                mir._nl.pop(rv[1], None)
+            out = []
+            for x in parts:
+                out += x
+            return out
         if k == 'agg':
             out = []
             for o in rv[1]:
